@@ -19,7 +19,7 @@ pub fn prop() -> Prop {
     Prop {
         id: "C14",
         level: "exploration",
-        rule: "(a) complete enumeration of every built-in font (table extracted from /repo) x every character of its mapping: the font's glyph_mapping.index(c) agrees with the mapping constant named in the font's source, is unique, its cell and the replacement glyph's cell lie completely inside font.image, and the character rendered alone reproduces that cell (thorough: every pair; quick: every font with 24 characters spread over its mapping). (b) proptest tapes: random built-in font, strings of mapped and unmapped characters (controls, non-BMP), text/background colour present or absent, underline/strikethrough in {None, TextColor, Custom}. (c) custom fonts built by the harness: atlas of 1..=4 rows with different row lengths, glyph 1..=9 x 1..=9, spacing 0..=3, own StrGlyphMapping with ranges or a closure mapping. Oracle: a reference renderer reading the atlas (cell i at x = i*(width+spacing); pixel = font.image.pixel(cell origin + (dx,dy)) -> text colour / background / untouched; spacing columns -> background if set; strikethrough then underline over n*(width+spacing)-spacing columns at the font's offsets); the recorded pixel map and the returned position must equal the reference. Non-trivial: at least one mapped non-blank and one unmapped character, or spacing > 0 with a background or decoration.",
+        rule: "(a) complete enumeration of every built-in font (table extracted from /repo) x every character of its mapping: the font's glyph_mapping.index(c) agrees with the mapping constant named in the font's source, is unique, its cell and the replacement glyph's cell lie completely inside font.image, and the character rendered alone reproduces that cell (thorough: every pair; quick: every font with 24 characters spread over its mapping). (b) proptest tapes: random built-in font, strings of mapped and unmapped characters (controls, non-BMP), text/background colour present or absent, underline/strikethrough in {None, TextColor, Custom}. (d) StrGlyphMapping strings of 1..=7 segments (single characters and \\0-ranges of 1..=6 characters from ASCII, Latin-1, Greek, CJK and non-BMP code points) judged by an independent decoder of the documented encoding: index(), contains(), chars(), ranges(), replacement index for characters next to every segment, and a text rendered through a font with that mapping. (c) custom fonts built by the harness: atlas of 1..=4 rows with different row lengths, glyph 1..=9 x 1..=9, spacing 0..=3, own StrGlyphMapping with ranges or a closure mapping. Oracle: a reference renderer reading the atlas (cell i at x = i*(width+spacing); pixel = font.image.pixel(cell origin + (dx,dy)) -> text colour / background / untouched; spacing columns -> background if set; strikethrough then underline over n*(width+spacing)-spacing columns at the font's offsets); the recorded pixel map and the returned position must equal the reference. Non-trivial: at least one mapped non-blank and one unmapped character, or spacing > 0 with a background or decoration.",
         assumptions: vec![
             "ImageRaw::pixel is the atlas reader (pinned by C09)",
             "single lines with Baseline::Top and left alignment (layout is C15's business)",
@@ -28,6 +28,7 @@ pub fn prop() -> Prop {
             Sub::enumerate("font_data", font_data),
             Sub::tape("builtin_render", 300, 100_000, 5_000_000, builtin_render),
             Sub::tape("custom_fonts", 80, 100_000, 5_000_000, custom_fonts),
+            Sub::tape("str_mappings", 80, 100_000, 5_000_000, str_mappings),
         ],
     }
 }
@@ -44,9 +45,10 @@ pub struct LineStyle {
 
 impl LineStyle {
     pub fn gen(d: &mut Dec) -> Self {
+        let text = gen_text_color::<C>(d);
         LineStyle {
-            text: if d.ratio(3, 4) { Some(C::nth(3)) } else { None },
-            background: if d.ratio(1, 3) { Some(C::nth(4)) } else { None },
+            text,
+            background: gen_background(d, text),
             underline: gen_decoration(d, 5),
             strikethrough: gen_decoration(d, 6),
         }
@@ -244,7 +246,7 @@ fn builtin_render(d: &mut Dec, cx: &mut Cx) -> Res {
     let (name, font, _) = FONTS[fi];
     let text: String = gen_string(d, fi, 10, false, false).chars().filter(|c| *c != '\r' && *c != '\n').collect();
     let st = LineStyle::gen(d);
-    let pos = gen::point(d, 30);
+    let pos = gen::point(d, 30) + gen::far_offset(d);
     cx.describe(|| format!("font {} text {:?} at {:?} {:?}", name, text, pos, st));
     let chars = font_chars(fi);
     let mapped_nonblank = text.chars().any(|c| c != ' ' && chars.contains(&c));
@@ -311,7 +313,7 @@ fn custom_fonts(d: &mut Dec, cx: &mut Cx) -> Res {
         });
     }
     let st = LineStyle::gen(d);
-    let pos = gen::point(d, 20);
+    let pos = gen::point(d, 20) + gen::far_offset(d);
     cx.describe(|| {
         format!(
             "custom font glyph {}x{} spacing {} atlas {}x{} ({} glyphs, {} per row) mapping {:?} ({}), replacement {}, strikethrough {:?} underline {:?}; text {:?} at {:?} {:?}",
@@ -329,5 +331,114 @@ fn custom_fonts(d: &mut Dec, cx: &mut Cx) -> Res {
     check_line(&font, &text, &st, pos, "custom")?;
     let decorated = !st.underline.is_none() || !st.strikethrough.is_none();
     cx.nontrivial(text.chars().count() >= 2 && spacing > 0 && (st.background.is_some() || decorated));
+    Ok(())
+}
+
+
+/// `StrGlyphMapping` against an independent decoder of the documented string encoding: a character
+/// maps to its position in the string, `\0 a b` stands for the inclusive range a..=b.
+fn str_mappings(d: &mut Dec, cx: &mut Cx) -> Res {
+    let nseg = d.u(1, 7);
+    let mut cp: u32 = match d.u(0, 4) {
+        0 => 0x20,
+        1 => 0xA0,
+        2 => 0x390,
+        3 => 0x4E00,
+        _ => 0x1F600,
+    };
+    let mut mstr = String::new();
+    let mut expanded: Vec<char> = vec![];
+    let mut segs: Vec<(usize, char, char)> = vec![];
+    let mut outside: Vec<char> = vec![];
+    let mut any_range = false;
+    for _ in 0..nseg {
+        // strictly increasing code points, so all characters are distinct; never a surrogate, never NUL
+        let gap = match d.u(0, 3) {
+            0 => 1,
+            1 => d.u(2, 5),
+            2 => d.u(6, 300),
+            _ => d.u(301, 70_000),
+        };
+        cp += gap;
+        let len = if d.bool() { 1 } else { d.u(1, 6) };
+        if (0xD800 - 8..=0xDFFF).contains(&cp) {
+            cp = 0xE000 + 1;
+        }
+        if cp + len > 0x10FFFF {
+            cp = 0x1F000;
+        }
+        let as_range = len > 1 || d.ratio(1, 4);
+        let (a, b) = (char::from_u32(cp).unwrap(), char::from_u32(cp + len - 1).unwrap());
+        if let Some(o) = char::from_u32(cp - 1) {
+            if o != '\0' && !expanded.contains(&o) {
+                outside.push(o);
+            }
+        }
+        segs.push((expanded.len(), a, b));
+        if as_range {
+            any_range = true;
+            mstr.push('\0');
+            mstr.push(a);
+            mstr.push(b);
+        } else {
+            mstr.push(a);
+        }
+        for k in 0..len {
+            expanded.push(char::from_u32(cp + k).unwrap());
+        }
+        cp += len - 1;
+        if let Some(o) = char::from_u32(cp + 1) {
+            outside.push(o);
+        }
+    }
+    outside.retain(|o| !expanded.contains(o));
+    let replacement = d.idx(expanded.len());
+    let m = StrGlyphMapping::new(&mstr, replacement);
+    cx.describe(|| format!("StrGlyphMapping::new({:?}, {}): {} characters in {} segments", mstr, replacement, expanded.len(), segs.len()));
+    cx.class(if any_range { "with_ranges" } else { "singles_only" });
+    for (i, c) in expanded.iter().enumerate() {
+        ensure!(m.index(*c) == i, "mapping:index", "index({:?}) = {}, position {} in the documented encoding", c, m.index(*c), i);
+        ensure!(m.contains(*c), "mapping:contains", "contains({:?}) is false for position {}", c, i);
+    }
+    for o in &outside {
+        ensure!(m.index(*o) == replacement, "mapping:replacement", "index({:?}) = {} for a character outside the mapping, replacement index {}", o, m.index(*o), replacement);
+        ensure!(!m.contains(*o), "mapping:contains_outside", "contains({:?}) is true for a character outside the mapping", o);
+    }
+    let chars: Vec<char> = m.chars().collect();
+    ensure!(chars == expanded, "mapping:chars", "chars() = {:?}, expected {:?}", chars, expanded);
+    let ranges: Vec<(usize, char, char)> = m.ranges().map(|(i, r)| (i, *r.start(), *r.end())).collect();
+    ensure!(ranges == segs, "mapping:ranges", "ranges() = {:?}, expected {:?}", ranges, segs);
+    // a text through a font with this mapping (one atlas row, 3x3 glyphs)
+    let n = expanded.len();
+    let gpr = d.u(1, n as u32) as usize;
+    let rows = (n + gpr - 1) / gpr;
+    let (cw, ch) = (3u32, 3u32);
+    let (iw, ih) = (gpr as u32 * cw, rows as u32 * ch);
+    let stride = (iw as usize + 7) / 8;
+    let mut x = d.raw() | 1;
+    let data: Vec<u8> = (0..stride * ih as usize)
+        .map(|_| {
+            x ^= x << 13;
+            x ^= x >> 17;
+            x ^= x << 5;
+            x as u8
+        })
+        .collect();
+    let font = MonoFont {
+        image: ImageRaw::new(&data, Size::new(iw, ih)).map_err(|e| Fail { sig: "harness:atlas".into(), detail: format!("{:?}", e) })?,
+        character_size: Size::new(cw, ch),
+        character_spacing: d.u(0, 1),
+        baseline: 2,
+        strikethrough: DecorationDimensions::new(1, 1),
+        underline: DecorationDimensions::new(3, 1),
+        glyph_mapping: &m,
+    };
+    let mut text = String::new();
+    for _ in 0..d.u(0, 8) {
+        text.push(if !outside.is_empty() && d.ratio(1, 5) { outside[d.idx(outside.len())] } else { expanded[d.idx(n)] });
+    }
+    let st = LineStyle::gen(d);
+    check_line(&font, &text, &st, Point::new(1, 1), "mapping")?;
+    cx.nontrivial(segs.len() >= 2 && any_range);
     Ok(())
 }
